@@ -125,7 +125,9 @@ pub enum Tok {
     Cancel(u64),
     Probe(u64),
     Call { neg: bool, secs: u64, nanos: u32 },
-    Resp { id: u64, ok: bool },
+    /// det = (len, off): an error response whose detail is `off` ASCII bytes followed by 2-, 3- and
+    /// 4-byte UTF-8 characters up to at least `len` bytes; (0, _) = the short detail "busy"
+    Resp { id: u64, ok: bool, det: (usize, usize) },
     Wrong,
     Frame(Vec<u8>),
     Garbage(Vec<u8>),
@@ -157,7 +159,10 @@ impl Tok {
             Tok::Cancel(id) => format!("X{id}"),
             Tok::Probe(id) => format!("V{id}"),
             Tok::Call { neg, secs, nanos } => format!("K{}{secs}:{nanos}", if *neg { "-" } else { "+" }),
-            Tok::Resp { id, ok } => format!("W{id}:{}", if *ok { "o" } else { "e" }),
+            Tok::Resp { id, ok, det } => format!(
+                "W{id}:{}",
+                if *ok { "o".to_string() } else if det.0 > 0 { format!("e{}.{}", det.0, det.1) } else { "e".to_string() }
+            ),
             Tok::Wrong => "Y".into(),
             Tok::Frame(b) => format!("F:{}", hex(b)),
             Tok::Garbage(b) => format!("G:{}", hex(b)),
@@ -202,7 +207,11 @@ impl Tok {
             }
             "W" => {
                 let (a, b) = rest.split_once(':')?;
-                Tok::Resp { id: a.parse().ok()?, ok: b == "o" }
+                let det = match b.strip_prefix('e').and_then(|d| d.split_once('.')) {
+                    Some((l, o)) => (l.parse::<usize>().ok()?.min(200_000), o.parse::<usize>().ok()? % 8),
+                    None => (0, 0),
+                };
+                Tok::Resp { id: a.parse().ok()?, ok: b == "o", det }
             }
             "Y" => Tok::Wrong,
             "A" => Tok::Age(rest.parse().ok()?),
@@ -326,6 +335,34 @@ pub fn cancel_payload_form(codec: &Cd, id: u64, form: u8) -> Vec<u8> {
             varint(&mut o, 3);
             o.push(0);
             varint(&mut o, id);
+            o
+        }
+    }
+}
+/// `off` ASCII bytes, then 2-, 3- and 4-byte characters in turn, up to at least `len` bytes
+pub fn long_detail(det: (usize, usize)) -> String {
+    let mut d = "a".repeat(det.1);
+    let cs = ['\u{e9}', '\u{20ac}', '\u{1f600}'];
+    let mut i = det.1;
+    while d.len() < det.0 {
+        d.push(cs[i % 3]);
+        i += 1;
+    }
+    d
+}
+/// an error response (kind 10) carrying `long_detail(det)`
+pub fn error_payload_detail(codec: &Cd, id: u64, form: u8, det: (usize, usize)) -> Vec<u8> {
+    let d = long_detail(det);
+    match codec {
+        Cd::Json if form == 1 => format!(r#"[{id},{{"Err":[10,"{d}"]}}]"#).into_bytes(),
+        Cd::Json if form >= 2 => format!(r#"[{id},{{"Err":{{"kind":10,"detail":"{d}"}}}}]"#).into_bytes(),
+        Cd::Json => format!(r#"{{"request_id":{id},"message":{{"Err":{{"kind":10,"detail":"{d}"}}}}}}"#).into_bytes(),
+        Cd::Bincode => {
+            let mut o = vec![];
+            varint(&mut o, id);
+            o.extend([1, 10]);
+            varint(&mut o, d.len() as u64);
+            o.extend(d.as_bytes());
             o
         }
     }
@@ -630,7 +667,13 @@ macro_rules! client_run {
                         }
                     }
                 }
-                Tok::Resp { id, ok } => pipe.push_frame(&response_payload_form(&s.codec, *id, *ok, s.form)),
+                Tok::Resp { id, ok, det } => {
+                    if !*ok && det.0 > 0 {
+                        pipe.push_frame(&error_payload_detail(&s.codec, *id, s.form, *det))
+                    } else {
+                        pipe.push_frame(&response_payload_form(&s.codec, *id, *ok, s.form))
+                    }
+                }
                 _ => act = false,
             }
             if act && !over {
@@ -940,7 +983,7 @@ pub fn to_case(s: &Script, wrong_variant_on: bool) -> Case {
             Tok::Cancel(id) => format!("SCancel {id}"),
             Tok::Probe(id) => format!("SProbe {id}"),
             Tok::Call { neg, secs, nanos } => format!("CCall {neg} {secs} {nanos}"),
-            Tok::Resp { id, ok } => format!("CResp {id} {ok}"),
+            Tok::Resp { id, ok, .. } => format!("CResp {id} {ok}"),
             Tok::Wrong => format!("CWrong {wrong_variant_on}"),
             Tok::Frame(p) => format!("MFrame {}", crate::wire::coq_bytes_smart(p)),
             Tok::Garbage(p) => format!("MGarbage {}", crate::wire::coq_bytes_smart(p)),
@@ -976,7 +1019,12 @@ pub fn to_case(s: &Script, wrong_variant_on: bool) -> Case {
                 }
             }
             Tok::Cancel(_) => tags.push("cancel".into()),
-            Tok::Resp { .. } => tags.push("response".into()),
+            Tok::Resp { ok, det, .. } => {
+                tags.push("response".into());
+                if !*ok && det.0 > 0 {
+                    tags.push("long-multibyte-error-detail".into());
+                }
+            }
             Tok::Probe(_) => tags.push("probe".into()),
             _ => {}
         }
@@ -1057,8 +1105,19 @@ pub fn gen(rng: &mut Rng, wrong_variant_on: bool) -> Script {
             for _ in 0..n {
                 toks.push(match rng.below(10) {
                     0..=5 => Tok::Call { neg: rng.chance(1, 5), secs: *rng.pick(&SECS), nanos: *rng.pick(&NANOS[..3]) },
-                    6..=8 => Tok::Resp { id: if rng.chance(1, 2) { rng.below(6) } else { *rng.pick(&IDS) }, ok: rng.chance(1, 2) },
-                    _ => if wrong_variant_on { Tok::Wrong } else { Tok::Resp { id: 0, ok: true } },
+                    6..=8 => {
+                        let ok = rng.chance(1, 2);
+                        // a third of the error responses: a long detail whose multi-byte characters straddle the
+                        // byte offsets a careless truncation would cut at (powers of two and their neighbours)
+                        let det = if !ok && rng.chance(1, 3) {
+                            let base = *rng.pick(&[16usize, 32, 64, 100, 128, 255, 256, 512, 1000, 1024, 4096, 65536]);
+                            (base + rng.below(4) as usize, rng.below(8) as usize)
+                        } else {
+                            (0, 0)
+                        };
+                        Tok::Resp { id: if rng.chance(1, 2) { rng.below(6) } else { *rng.pick(&IDS) }, ok, det }
+                    }
+                    _ => if wrong_variant_on { Tok::Wrong } else { Tok::Resp { id: 0, ok: true, det: (0, 0) } },
                 });
             }
             toks.push(Tok::Call { neg: false, secs: 10, nanos: 0 });
@@ -1145,7 +1204,7 @@ pub fn sweep(mut f0: impl FnMut(Script)) {
                 }
                 for neg in [false, true] {
                     f(Script { mode: Mode::Client, sub: sub.clone(), codec: codec.clone(), rd: vec![], cut: 0, form: 0,
-                               toks: vec![Tok::Call { neg, secs: s, nanos: 1 }, Tok::Resp { id: 5, ok: true }, Tok::Call { neg: false, secs: 10, nanos: 0 }, Tok::Resp { id: 1, ok: false }] });
+                               toks: vec![Tok::Call { neg, secs: s, nanos: 1 }, Tok::Resp { id: 5, ok: true, det: (0, 0) }, Tok::Call { neg: false, secs: 10, nanos: 0 }, Tok::Resp { id: 1, ok: false, det: (0, 0) }] });
                 }
             }
         }
